@@ -183,3 +183,47 @@ class InterpModel:
         for i, v in path["regs"]:
             d[i] = v
         return d
+
+
+    # ------------------------------------------------------------------ normalised summaries
+    def summary(self, v):
+        """paths in the shape of isaref.path(): conds (frozenset), regs {index: value}, pc, stores,
+        atomics, exit, calls; bounds-check results are rewritten to ('inbounds', addr, nbytes)"""
+        out = []
+        for p in self.per_opcode(v):
+            checks = {}
+            calls = []
+            stores, atomics = [], []
+            for e in p["effects"]:
+                if e[0] == "call" and e[1] == self.bc:
+                    a = e[2]
+                    nb = a[1][2] if T.is_k(a[1]) else None
+                    checks[e[3]] = ("inbounds", a[0], nb)
+                elif e[0] == "store":
+                    stores.append((e[1], e[2], e[3]))
+                elif e[0] == "atomic_add":
+                    atomics.append((e[1], e[2], e[3]))
+                elif e[0] == "call" and e[1] == "indirect":
+                    calls.append(e)
+            conds = set()
+            for c in p["conds"]:
+                conds.add(self._subst_checks(c, checks))
+            ex = p["exit"]
+            if ex is not None and ex[0] == "ok":
+                ex = ("ok", ex[1])
+            elif ex is not None and ex[0] == "err":
+                ex = ("err",)
+            from vmodel import simplify_atoms
+            conds = simplify_atoms(conds)
+            out.append({"conds": frozenset(conds), "regs": self.final_reg_writes(p), "pc": p["pc"], "stores": stores,
+                        "atomics": atomics, "exit": ex, "calls": calls, "unrec": p["unrec"], "panic_if": p["panic_if"]})
+        return out
+
+    def _subst_checks(self, c, checks):
+        if isinstance(c, tuple) and c:
+            if c[0] == "call" and c[1] == "is_ok" and c[2] and c[2][0] in checks:
+                return checks[c[2][0]]
+            if c[0] == "not":
+                inner = self._subst_checks(c[1], checks)
+                return T.lnot(inner) if inner != c[1] and inner[0] != "inbounds" else ("not", inner)
+        return c
